@@ -19,6 +19,22 @@ type SymCase struct {
 	Adds    []string    `json:"adds,omitempty"`    // builder history
 	Via     string      `json:"via"`               // "api" | "reader-text" | "reader-binary" | "builder"
 	Catalog []SymImport `json:"catalog,omitempty"` // reader route: tables the catalog holds
+	// SysAt > 0 (api and builder routes): the caller lists the system symbol table itself among the
+	// imports, at position SysAt-1. It is implicit in every table, so listing it changes nothing.
+	SysAt int `json:"system_table_listed_at,omitempty"`
+}
+
+func withSystemAt(imps []ion.SharedSymbolTable, sysAt int) []ion.SharedSymbolTable {
+	if sysAt <= 0 {
+		return imps
+	}
+	at := sysAt - 1
+	if at > len(imps) {
+		at = len(imps)
+	}
+	out := append([]ion.SharedSymbolTable{}, imps[:at]...)
+	out = append(out, ion.V1SystemSymbolTable)
+	return append(out, imps[at:]...)
 }
 
 type SymImport struct {
@@ -26,6 +42,24 @@ type SymImport struct {
 	Version int      `json:"version"`
 	Symbols []string `json:"symbols"` // "" = gap
 	MaxID   int64    `json:"max_id"`  // adjusted / declared max_id; -1 = not declared
+	// Via: sizes the table is adjusted to first (a table that was padded or cut is adjusted again);
+	// a slot that was cut off once has no text any more
+	Via []int64 `json:"adjusted_first_to,omitempty"`
+}
+
+// viaApply runs the chain of Adjust calls on sst and returns it with the texts it has to hold afterwards.
+func (im SymImport) viaApply(sst ion.SharedSymbolTable) (ion.SharedSymbolTable, []string) {
+	texts := append([]string{}, im.Symbols...)
+	for _, n := range im.Via {
+		sst = sst.Adjust(uint64(n))
+		if int64(len(texts)) > n {
+			texts = texts[:n]
+		}
+		for int64(len(texts)) < n {
+			texts = append(texts, "")
+		}
+	}
+	return sst, texts
 }
 
 func slotsOf(texts []string) []refsym.Slot {
@@ -176,17 +210,18 @@ func symModel(k SymCase) (*refsym.Context, []ion.SharedSymbolTable) {
 			symsArg[i] = "overwritten_by_caller"
 		}
 		_ = append(symsArg, "appended_by_caller")
-		n := int64(len(im.Symbols))
+		sst, texts := im.viaApply(sst)
+		n := int64(len(texts))
 		if im.MaxID >= 0 {
 			n = im.MaxID
 			sst = sst.Adjust(uint64(n))
 		}
 		imps = append(imps, sst)
-		keep := len(im.Symbols)
+		keep := len(texts)
 		if int64(keep) > n {
 			keep = int(n)
 		}
-		ctx.Segs = append(ctx.Segs, refsym.Segment{Slots: slotsOf(im.Symbols[:keep]), N: uint64(n), Name: im.Name, Version: im.Version, Found: true, Import: true})
+		ctx.Segs = append(ctx.Segs, refsym.Segment{Slots: slotsOf(texts[:keep]), N: uint64(n), Name: im.Name, Version: im.Version, Found: true, Import: true})
 	}
 	if len(k.Locals) > 0 {
 		ctx.Segs = append(ctx.Segs, refsym.Segment{Slots: slotsOf(k.Locals), N: uint64(len(k.Locals))})
@@ -204,7 +239,7 @@ func runSymCase(k SymCase) (verdict string) {
 	case "api":
 		ctx, imps := symModel(k)
 		localsArg := append(make([]string, 0, len(k.Locals)+4), k.Locals...)
-		impsArg := append(make([]ion.SharedSymbolTable, 0, len(imps)+2), imps...)
+		impsArg := append(make([]ion.SharedSymbolTable, 0, len(imps)+3), withSystemAt(imps, k.SysAt)...)
 		st := ion.NewLocalSymbolTable(impsArg, localsArg)
 		if v := compareTable(st, ctx, k.Locals, true); v != "" {
 			return v
@@ -261,7 +296,7 @@ func runSymCase(k SymCase) (verdict string) {
 		}
 	case "builder":
 		ctx, imps := symModel(SymCase{Imports: k.Imports})
-		b := ion.NewSymbolTableBuilder(imps...)
+		b := ion.NewSymbolTableBuilder(withSystemAt(imps, k.SysAt)...)
 		type pair struct {
 			text string
 			id   uint64
@@ -335,8 +370,10 @@ func runSymCase(k SymCase) (verdict string) {
 		var cat refsym.Catalog
 		var icat []ion.SharedSymbolTable
 		for _, ct := range k.Catalog {
-			cat = append(cat, &refsym.Shared{Name: ct.Name, Version: ct.Version, Slots: slotsOf(ct.Symbols)})
-			icat = append(icat, ion.NewSharedSymbolTable(ct.Name, ct.Version, ct.Symbols))
+			// (the catalog may hold a table that was padded or cut after it was built)
+			sst, texts := ct.viaApply(ion.NewSharedSymbolTable(ct.Name, ct.Version, ct.Symbols))
+			cat = append(cat, &refsym.Shared{Name: ct.Name, Version: ct.Version, Slots: slotsOf(texts)})
+			icat = append(icat, sst)
 		}
 		spec := refsym.LSTSpec{Symbols: slotsOf(k.Locals)}
 		for _, im := range k.Imports {
@@ -441,6 +478,11 @@ func importVariants(name string, alpha []string, maxLen int) []SymImport {
 	for _, syms := range lists(alpha, maxLen) {
 		for m := int64(0); m <= int64(len(syms))+2; m++ {
 			out = append(out, SymImport{Name: name, Version: 1, Symbols: syms, MaxID: m})
+			// the same size reached after the table was first padded, or first cut by one
+			out = append(out, SymImport{Name: name, Version: 1, Symbols: syms, MaxID: m, Via: []int64{int64(len(syms)) + 3}})
+			if len(syms) > 0 {
+				out = append(out, SymImport{Name: name, Version: 1, Symbols: syms, MaxID: m, Via: []int64{int64(len(syms)) - 1}})
+			}
 		}
 		out = append(out, SymImport{Name: name, Version: 1, Symbols: syms, MaxID: -1})
 	}
@@ -574,9 +616,22 @@ func runC09(c *Ctx) {
 					im.MaxID = int64(1)<<uint(10+r.Intn(30)) + int64(r.Intn(3))
 				}
 			}
+			if r.Intn(3) == 0 {
+				// padded or cut first, then adjusted (possibly back to its own length)
+				im.Via = []int64{int64(r.Intn(len(syms) + 12))}
+				if r.Intn(2) == 0 {
+					im.Via = append(im.Via, int64(r.Intn(len(syms)+4)))
+				}
+				if r.Intn(2) == 0 {
+					im.MaxID = int64(len(syms))
+				}
+			}
 			k.Imports = append(k.Imports, im)
 		}
 		k.Locals = rl(8)
+		if r.Intn(4) == 0 {
+			k.SysAt = 1 + r.Intn(len(k.Imports)+1)
+		}
 		switch i % 4 {
 		case 0:
 			k.Via = "api"
@@ -611,6 +666,18 @@ func runC09(c *Ctx) {
 				}
 				if im.MaxID > 1<<20 && r.Intn(2) == 0 {
 					im.MaxID = int64(r.Intn(30))
+				}
+			}
+			// some catalogs hold a padded (or cut) view of a table. Decided by the table's identity:
+			// two different views registered under one name and version would leave open which one a
+			// lookup finds.
+			for ci := range k.Catalog {
+				ct := &k.Catalog[ci]
+				if (int(ct.Name[0])+ct.Version+len(ct.Symbols))%3 == 0 {
+					ct.Via = []int64{int64(len(ct.Symbols) + (ct.Version*7+len(ct.Symbols))%9 - 2)}
+					if ct.Via[0] < 0 {
+						ct.Via[0] = 0
+					}
 				}
 			}
 			if r.Intn(8) == 0 {
